@@ -119,6 +119,7 @@ func (g *Gen) callCommon(in *ssa.Call, common *ssa.CallCommon, args []*SV, st *S
 	if key != "" {
 		g.lockOrder(key, common, st, reach, pos)
 		if in != nil {
+			g.noteCallEpochs(callee, st)
 			g.lockOrderCallee(callee, st, reach, pos)
 			// functions handed to the callee run (as far as this check is concerned) during the call
 			for _, a := range common.Args {
@@ -468,25 +469,28 @@ func (g *Gen) lockOrder(key string, common *ssa.CallCommon, st *State, reach str
 			return
 		}
 	}
+	field, tname := "", ""
 	if fa == nil {
-		var ok bool
-		fa, ok = common.Args[0].(*ssa.FieldAddr)
+		fa, _ = common.Args[0].(*ssa.FieldAddr)
+	}
+	if fa != nil {
+		pt, ok := fa.X.Type().Underlying().(*types.Pointer)
 		if !ok {
 			return
 		}
-	}
-	pt, ok := fa.X.Type().Underlying().(*types.Pointer)
-	if !ok {
+		stt, ok := pt.Elem().Underlying().(*types.Struct)
+		if !ok {
+			return
+		}
+		field = stt.Field(fa.Field).Name()
+		if nt, ok := types.Unalias(pt.Elem()).(*types.Named); ok {
+			tname = nt.Obj().Name()
+		}
+	} else if n := lockFromCall(common.Args[0], 0); n != "" {
+		// a mutex handed out by a function (e.g. a lock shard chosen by key) is named "f()"
+		field = n + "()"
+	} else {
 		return
-	}
-	stt, ok := pt.Elem().Underlying().(*types.Struct)
-	if !ok {
-		return
-	}
-	field := stt.Field(fa.Field).Name()
-	tname := ""
-	if nt, ok := types.Unalias(pt.Elem()).(*types.Named); ok {
-		tname = nt.Obj().Name()
 	}
 	names := strings.Split(order, "<")
 	rank := -1
@@ -512,6 +516,7 @@ func (g *Gen) lockOrder(key string, common *ssa.CallCommon, st *State, reach str
 		g.safeCtr["lockorder"]++
 		g.addObl("lock-order", fmt.Sprint(n), implies(reach, and(none...)), pos, "acquiring "+field+": neither it nor a lock that must be taken after it ("+order+") is held", nil)
 		st.ghost["lock.held."+field] = "true"
+		st.ghost["lockn.epoch."+field] = "(+ " + g.ghostGet(st, "lockn.epoch."+field) + " 1)"
 		if key != "sync.(*RWMutex).RLock" && !(key != "sync.(*RWMutex).Lock" && key != "sync.(*Mutex).Lock" && wrapperIsRead(common.StaticCallee())) {
 			st.ghost["lock.wheld."+field] = "true"
 		}
@@ -519,6 +524,49 @@ func (g *Gen) lockOrder(key string, common *ssa.CallCommon, st *State, reach str
 	} else {
 		st.ghost["lock.held."+field] = "false"
 		st.ghost["lock.wheld."+field] = "false"
+	}
+}
+
+// lockFromCall: the mutex value is the result of a static call (possibly kept in a local): its name.
+func lockFromCall(v ssa.Value, depth int) string {
+	if depth > 4 {
+		return ""
+	}
+	switch x := v.(type) {
+	case *ssa.Call:
+		if f := x.Call.StaticCallee(); f != nil {
+			return f.Name()
+		}
+	case *ssa.UnOp:
+		if a, ok := x.X.(*ssa.Alloc); ok && x.Op == token.MUL {
+			if rs := a.Referrers(); rs != nil {
+				name := ""
+				for _, r := range *rs {
+					if s, ok := r.(*ssa.Store); ok && s.Addr == a {
+						n := lockFromCall(s.Val, depth+1)
+						if n == "" || (name != "" && n != name) {
+							return ""
+						}
+						name = n
+					}
+				}
+				return name
+			}
+		}
+	}
+	return ""
+}
+
+// noteCallEpochs records, for every lock of the order, how many acquisitions had happened when the
+// callee was last called: lockepochAt("lock", "Callee") in assertions.
+func (g *Gen) noteCallEpochs(callee *ssa.Function, st *State) {
+	order := g.con.Opts["lock-order"]
+	if order == "" || callee == nil {
+		return
+	}
+	for _, n := range strings.Split(order, "<") {
+		n = strings.TrimSpace(n)
+		st.ghost["lockn.at."+callee.Name()+"."+n] = g.ghostGet(st, "lockn.epoch."+n)
 	}
 }
 
